@@ -331,6 +331,11 @@ def caller_write_events(ctx, n, start):
 
 def main(ctx):
     quick = ctx.tier == 'quick'
+    # the shared positions buffer (PositionsAllocator) is re-allocated the first time an index needs more than its initial capacity:
+    # every container built afterwards holds a view of the NEW buffer, so make that happen before any fixture exists
+    big = sf.Index(np.arange(3000) * 2, name='big')
+    if big.positions.flags.writeable or big.values.flags.writeable:
+        ctx.violation('V', 'an index of 3000 labels hands out a writeable array', case={'target': 'Index(3000 labels)', 'attr': 'positions / values'}, clause='writeable_array')
     ctx.model_check('MC_C01', 'MC_C01_quick.cfg' if quick else 'MC_C01_thorough.cfg', timeout=6000, heap='12g')
     ctx.model_check('MC_C01', 'MC_C01_neg.cfg', expect_violation='AllFrozen', coverage=False)
     behaviours, out = tlc.simulate('MC_C01', 'MC_C01_thorough.cfg', num=300 if quick else 5000, depth=10, seed=ctx.seed % 100000)
